@@ -315,7 +315,7 @@ class Tree:
             txs.append(t)
         return txs
 
-    def extend(self, parent_hash=None, n_tx=None, dt=None, miner=None, txs=None, _retry=False):
+    def extend(self, parent_hash=None, n_tx=None, dt=None, miner=None, txs=None, _retry=False, data_len=None):
         parent_hash = parent_hash or self.cs.current_chain_hash
         parent = self.cs.block_by_hash[parent_hash]
         if txs is None:
@@ -326,6 +326,8 @@ class Tree:
         # kinds of signature field (65 bytes = 6 + 59) and the limits over-represented
         r_ = self.rng.random()
         n_data = 0 if r_ < 0.35 else self.rng.choice([1, 58, 59, 60, 199, 200]) if r_ < 0.6 else self.rng.randrange(0, 201)
+        if data_len is not None:
+            n_data = data_len
         data = bytes(self.rng.getrandbits(8) for _ in range(n_data))
         try:
             shape = self.rng.random()
